@@ -10,6 +10,8 @@ spec/Balance.tla (+ LinAlg, Balance_MC slices, BalanceTrace).  Directions:
                  of the agreeing ones is additionally judged by TLC (BalanceTrace), and the two
                  formulations must agree.
   code -> spec : seeded matrices beyond the bounds (<= 6 species x 5 keys, entries <= 12), many-species
+                 finely resolved fractional compositions (scale 10^4 / 10^5, judged on the true integer
+                 matrix; unclassified beyond the 32-bit elimination range), many-species
                  single-ray problems (11..14 species, positive solution known by construction and
                  verified by TLC as a Witness) and textbook reactions given as formulas (three of
                  them with 11..13 species) are run through the real code; TLC replays
@@ -27,15 +29,18 @@ ASSUMPTIONS = [
     "certificate entries <= 3) are emitted but never judged (counted as skipped: undecided)",
     "minimal coefficient sum is decided by exhaustive bounded search when it needs <= 600 "
     "free-coordinate assignments, otherwise everything but minimality is judged (skipped: nomin)",
-    "seeded problems whose Hadamard minor bound exceeds 32767 are not encoded (32-bit TLC integers)",
+    "problems whose Hadamard minor bound (row-primitive matrix) exceeds 32767 are not classified by TLC "
+    "(32-bit integers): the soundness clauses balanced/positive/integer/coprime/keys are still judged "
+    "(exact CRT zero test), completeness (must it answer / refuse, minimality) is not",
     "a call that neither returns nor raises within 60 s (CBC on an unbounded integer program) is not an "
     "observation: skipped and counted (call-timeout), its solver process is killed",
     "a refusal (ValueError) is admissible in modes True/False whenever the null space has dimension "
     ">= 2: the statement only demands an answer for single-ray problems and for mode None",
 ]
 
-QUICK = ["tiny_q", "s3_q", "s4k2_q", "s4k3_q", "chg_q", "scale_q", "dupl_q", "dupl2_q"]
+QUICK = ["tiny_q", "s3_q", "s4k2_q", "s4k3_q", "chg_q", "scale_q", "fine4_q", "fine5_q", "dupl_q", "dupl2_q"]
 THOROUGH = ["tiny_q", "s3_q", "s3_t", "s4k2_q", "s4k3_q", "s4k3_t", "s5_t", "chg_q", "chg_t", "scale_q",
+            "fine4_q", "fine5_q",
             "dupl_q", "dupl2_q", "dupl_t"]
 ACTIONS = {
     "tiny_q": ["GenShape", "GenSetEntry", "Classify", "GenMode", "GenAccept"],
@@ -43,7 +48,7 @@ ACTIONS = {
 }
 # replay budget (problems x modes) per slice: None = everything
 QUICK_PER_SLICE = 1000
-THOROUGH_PER_SLICE = {"s3_q": 12000, "s3_t": 24000, "s4k3_t": 36000, "chg_t": 24000, "dupl_t": 6000}
+THOROUGH_PER_SLICE = {"fine4_q": 6000, "s3_q": 12000, "s3_t": 24000, "s4k3_t": 36000, "chg_t": 24000, "dupl_t": 6000}
 
 # atomic number standing for row k (the charge row is key 0)
 ROW_KEYS = [1, 6, 8, 7, 16, 17, 11, 19, 20, 26, 29, 30, 12, 13, 15, 9, 35, 53, 25, 24]
@@ -97,7 +102,8 @@ def _q(v):
 
 
 def _encodable(pairs):
-    return all(abs(n) <= INT_LIMIT and 0 < d <= INT_LIMIT for n, d in pairs)
+    return all(abs(n) <= INT_LIMIT and 0 < d <= INT_LIMIT for n, d in pairs) \
+        and sum(abs(n) for n, d in pairs) <= INT_LIMIT
 
 
 def project(result, reac, prod):
@@ -186,12 +192,12 @@ def _kill_children():
             pass
 
 
-def _guarded(fn):
+def _guarded(fn, limit=None):
     """run fn() under a wall-clock alarm: a call that neither returns nor raises within the limit is
     not an observation (skipped and counted, never judged)"""
     import signal
     old = signal.signal(signal.SIGALRM, _alarm)
-    signal.setitimer(signal.ITIMER_REAL, CALL_TIMEOUT_S)
+    signal.setitimer(signal.ITIMER_REAL, limit or CALL_TIMEOUT_S)
     try:
         return fn()
     except _CallTimeout:
@@ -209,7 +215,8 @@ def observe(inp):
     kw = {"allow_duplicates": True} if inp["dupl"] else {}
     try:
         res = _guarded(lambda: balance_stoichiometry(list(reac), list(prod), substances=subst,
-                                                     underdetermined=MODES[inp["mode"]], **kw))
+                                                     underdetermined=MODES[inp["mode"]], **kw),
+                       inp.get("timeout"))
     except _CallTimeout:
         return {"k": "unencodable", "sig": "call-timeout"}
     except Exception as e:  # the class name is the observation
@@ -231,7 +238,9 @@ def trace_of(inp, obs):
     for j in range(n):
         for k in range(inp["nk"]):
             ev.append({"ev": "SetEntry", "k": k + 1, "j": j + 1, "v": inp["comp"][k][j]})
-    ev.append({"ev": "Classify"})
+    # beyond the range of exact 32-bit elimination the problem is not classified: TLC then judges
+    # the soundness clauses only (Balance!Unclassified)
+    ev.append({"ev": "Unclassified" if inp.get("unclassified") else "Classify"})
     if inp.get("witness"):      # a positive balancing vector known by construction; TLC verifies it
         ev.append({"ev": "Witness", "x": list(inp["witness"])})
     if inp["dupl"]:
@@ -245,6 +254,12 @@ def trace_of(inp, obs):
 def hadamard_ok(comp):
     """encoder guard: every minor of the matrix is bounded by H; the elimination in LinAlg needs
     H^2 < 2^30 (32-bit TLC integers)"""
+    def prim(r):
+        g = 0
+        for v in r:
+            g = math.gcd(g, abs(v))
+        return [v // g for v in r] if g > 1 else r
+    comp = [prim(r) for r in comp]      # LinAlg!Reduce makes the rows primitive first
     rows = [math.sqrt(sum(v * v for v in r)) for r in comp]
     cols = [math.sqrt(sum(r[j] * r[j] for r in comp)) for j in range(len(comp[0]))]
     hr = 1.0
@@ -359,6 +374,17 @@ TEXTBOOK_BIG = [
 ]
 
 
+# non-stoichiometric compounds: finely resolved fractional amounts through the formula parser
+TEXTBOOK_FINE = [
+    ("Fe0.9474O O2", "Fe2O3", [20000, 4211, 9474]),
+    ("Fe0.947O O2", "Fe3O4", [3000, 394, 947]),
+    ("Ni0.9474O H2", "Ni H2O", None),
+    ("Fe0.9474O CO", "Fe CO2", None),
+    ("Ce0.8333Gd0.1667O1.9167 H2", "Ce2O3 Gd2O3 H2O", None),
+    ("Fe0.94737O O2", "Fe2O3", None),
+]
+
+
 def _formula_problem(item):
     """(reactant formulas, product formulas, mode) -> (inp, obs): compositions come from chempy's own
     formula parser (pipeline with C01); rows are the composition keys in sorted order."""
@@ -372,11 +398,18 @@ def _formula_problem(item):
     if 0 in keys:           # charge row last, as the model has it
         keys = [k for k in keys if k != 0] + [0]
         crow = len(keys)
-    comp = [[c.get(k, 0) for c in comps] for k in keys]
-    if any(not isinstance(v, int) for r in comp for v in r):
+    raw = [[c.get(k, 0) for c in comps] for k in keys]
+    scale = None        # amounts are comp/scale: the smallest power of ten that makes them integers
+    for sc in (1, 10, 100, 1000, 10 ** 4, 10 ** 5):
+        if all(abs(v * sc - round(v * sc)) < 1e-7 for r in raw for v in r):
+            scale = sc
+            break
+    if scale is None:
         return None
-    inp = {"nr": len(reac), "np": len(prod), "nk": len(keys), "crow": crow, "scale": 1, "comp": comp,
-           "mode": mode, "dupl": [], "formulas": [reac, prod], "witness": witness}
+    comp = [[int(round(v * scale)) for v in r] for r in raw]
+    inp = {"nr": len(reac), "np": len(prod), "nk": len(keys), "crow": crow, "scale": scale, "comp": comp,
+           "mode": mode, "dupl": [], "formulas": [reac, prod], "witness": witness,
+           "unclassified": not hadamard_ok(comp)}
     try:
         res = _guarded(lambda: balance_stoichiometry(list(reac), list(prod), underdetermined=MODES[mode]))
     except _CallTimeout:
@@ -388,6 +421,62 @@ def _formula_problem(item):
     else:
         obs = project(res, reac, prod)
     return inp, obs
+
+
+def rational_obs_ok(inp, obs):
+    """encoder guard: non-integer / symbolic coefficient vectors are checked by TLC with 32-bit rational
+    arithmetic; every partial sum of A.x is bounded by n * max|A| * max|numerator| * lcm(denominators)"""
+    vecs = [obs["x"]] if obs["k"] == "num" else ([obs["x0"]] + list(obs["vs"]) if obs["k"] == "sym" else [])
+    if all(d == 1 for v in vecs for _, d in v) and obs["k"] == "num":
+        return True         # integer vectors go through the large-number zero test
+    amax = max(abs(v) for r in inp["comp"] for v in r)
+    n = inp["nr"] + inp["np"]
+    for v in vecs:
+        l = 1
+        for _, d in v:
+            l = l * d // math.gcd(l, d)
+        if n * amax * max(abs(a) for a, _ in v) * l > INT_LIMIT:
+            return False
+    return True
+
+
+def _fine(rng, n_problems):
+    """finely resolved fractional compositions (4-5 significant digits, scale 10^4 / 10^5): a small
+    integer problem with n species, n-1 keys and a planted positive solution, one or two amounts of
+    which are replaced by a nearby fine fraction (the null space stays one-dimensional, its generator
+    mostly positive, its entries large).  Scale 10^5 only in modes True/False (the integer program of
+    mode None takes minutes on such numbers on the unchanged tree)."""
+    out = []
+    while len(out) < n_problems:
+        scale = rng.choice([10 ** 4, 10 ** 4, 10 ** 5])
+        n = rng.randint(2, 4)
+        nk = n - 1
+        nr = rng.randint(1, n - 1)
+        cols = []
+        for _ in range(n):
+            while True:
+                c = [rng.randint(1, 3) if rng.random() < 0.6 else 0 for _ in range(nk)]
+                if any(c):
+                    cols.append(c)
+                    break
+        x = [rng.randint(1, 3) for _ in range(n)]
+        x[-1] = 1
+        last = [-sum((-1 if j < nr else 1) * x[j] * cols[j][k] for j in range(n - 1)) for k in range(nk)]
+        if any(v < 0 for v in last) or not any(last) or max(last) > 9:
+            continue
+        cols[-1] = last
+        comp = [[cols[j][k] * scale for j in range(n)] for k in range(nk)]
+        cells = [(k, j) for k in range(nk) for j in range(n) if comp[k][j]]
+        npert = min(len(cells), rng.choice([1, 1, 2]))
+        for k, j in rng.sample(cells, npert):
+            v = int(comp[k][j] * rng.uniform(0.85, 1.15))
+            if v % 10 == 0:
+                v += rng.choice([1, 3, 7])
+            comp[k][j] = v
+        for mode in (("True", "False", "None") if scale == 10 ** 4 and npert == 1 else ("True", "False")):
+            out.append({"nr": nr, "np": n - nr, "nk": nk, "crow": 0, "scale": scale, "comp": comp,
+                        "mode": mode, "dupl": [], "unclassified": not hadamard_ok(comp), "timeout": 10})
+    return out[:n_problems]
 
 
 def _seeded(rng, n_problems):
@@ -515,7 +604,7 @@ def run(ctx):
         for case, obs in zip(sel, outs):
             inp = case["in"]
             ctx.ran(matrix_id(inp), nontrivial=inp["nr"] + inp["np"] >= 3)
-            if obs["k"] == "unencodable":
+            if obs["k"] == "unencodable" or not rational_obs_ok(inp, obs):
                 ctx.skip(obs.get("sig") if obs.get("sig") == "call-timeout" else "unencodable-observation")
                 continue
             d = direct_agrees(case["exp"], obs)
@@ -541,6 +630,17 @@ def run(ctx):
             continue
         batch.append((inp, obs, None, "code->spec", "BalanceTrace.cfg"))
 
+    # finely resolved fractional compositions (scale 10^4 / 10^5)
+    fine = _fine(ctx.rng, 150 if ctx.quick else 2000)
+    outs = ctx.pmap(_observe_inp, fine)
+    for inp, obs in zip(fine, outs):
+        ctx.ran(matrix_id(inp))
+        if obs["k"] == "unencodable" or not rational_obs_ok(inp, obs):
+            ctx.skip(obs.get("sig") if obs.get("sig") == "call-timeout" else "unencodable-observation")
+            continue
+        batch.append((inp, obs, None, "code->spec", "BalanceTrace.cfg"))
+    ctx.counters["fine_fraction_problems"] += len(fine)
+
     # many-species problems (11..14) with a positive solution known by construction
     big = _trees(ctx.rng, 150 if ctx.quick else 1500)
     outs = ctx.pmap(_observe_inp, big)
@@ -554,15 +654,17 @@ def run(ctx):
 
     tb = [(r, p, m) for (r, p) in TEXTBOOK for m in ("True", "False", "None")]
     tb += [(r, p, m, w) for (r, p, w) in TEXTBOOK_BIG for m in ("True", "False", "None")]
+    tb += [(r, p, m, w) for (r, p, w) in TEXTBOOK_FINE for m in ("True", "False", "None")
+           if not (m == "None" and "0.94737" in r)]       # five digits: modes True/False only
     outs = ctx.pmap(_formula_problem, tb)
     first = None
     for it, o in zip(tb, outs):
-        if o is None or not hadamard_ok(o[0]["comp"]):
+        if o is None:
             ctx.skip("textbook-not-encodable")
             continue
         inp, obs = o
         ctx.ran(matrix_id(inp))
-        if obs["k"] == "unencodable":
+        if obs["k"] == "unencodable" or not rational_obs_ok(inp, obs):
             ctx.skip("unencodable-observation")
             continue
         first = first or (inp, obs)
